@@ -480,6 +480,23 @@ func (env *SpecEnv) sel(x ESel) SpecVal {
 	t := v.Go
 	term := v.T
 	ptrBase := ""
+	// a captured variable (free variable of a closure) is a pointer to the variable's cell: read through it
+	for {
+		pt, ok := t.Underlying().(*types.Pointer)
+		if !ok {
+			break
+		}
+		if _, inner := pt.Elem().Underlying().(*types.Pointer); !inner {
+			if _, innerStruct := pt.Elem().Underlying().(*types.Struct); innerStruct {
+				break
+			}
+			break
+		}
+		heap := g.so.heapFor(pt.Elem())
+		term = fmt.Sprintf("(select %s %s)", env.heapT(env.cur, heap), term)
+		t = pt.Elem()
+		v = SpecVal{term, "Int", t}
+	}
 	if pt, ok := t.Underlying().(*types.Pointer); ok {
 		ptrBase = v.T
 		heap := g.so.heapFor(pt.Elem())
@@ -722,6 +739,17 @@ func (env *SpecEnv) call(x ECall) SpecVal {
 			return SpecVal{env.heapT(env.cur, key), g.so.heaps[key], nil}
 		}
 		env.fail("no range #%d", k)
+	case "sends", "closed", "chancap":
+		ch := env.tr(x.Args[0])
+		g.chanHeaps()
+		switch x.Fn {
+		case "sends":
+			return SpecVal{fmt.Sprintf("(select %s %s)", env.heapT(env.cur, chanSendsHeap), ch.T), "Int", nil}
+		case "closed":
+			return SpecVal{fmt.Sprintf("(select %s %s)", env.heapT(env.cur, chanClosedHeap), ch.T), "Bool", nil}
+		default:
+			return SpecVal{fmt.Sprintf("(select %s %s)", env.heapT(env.cur, chanCapHeap), ch.T), "Int", nil}
+		}
 	case "addr":
 		// addr(p.f): the address of an out-of-line field cell
 		sel, ok := x.Args[0].(ESel)
